@@ -389,17 +389,25 @@ func cleanupNewRing(newRing [][2]float64, isOuter bool, hitMultiple map[intgeom.
 	}
 	// filter out too small rings
 	if newRingLen < 3 {
-		return nil, nil, [][][2]float64{newRing}
+		return nil, nil, asPointOrLine(newRing)
 	}
 	// deduplicate points in the ring
 	newRing = kmpDeduplicate(newRing)
 	newRingLen = len(newRing)
 	// again filter out too small rings, after deduping
 	if newRingLen < 3 {
-		return nil, nil, [][][2]float64{newRing}
+		return nil, nil, asPointOrLine(newRing)
 	}
 	// split ring and return results
 	return splitRing(newRing, isOuter, hitMultiple, ringIdx)
+}
+
+// a ring that is too small is a point or a line, but an empty ring is nothing at all
+func asPointOrLine(ring [][2]float64) [][][2]float64 {
+	if len(ring) == 0 {
+		return nil
+	}
+	return [][][2]float64{ring}
 }
 
 // if winding order is incorrect, ring is reversed to correct winding order
